@@ -56,17 +56,24 @@ def textMods (t : Bytes) : Bool × List CosMod :=
   | .ok (_, opts, wl) => (wl, textCosMods opts)
   | .error _ => (false, [])
 
-def outWeb (cls : VClass) (basic doc : Option NetRule) (opt : CosOpt) (sel : List Bytes × List Bytes) : String :=
+def outReqFields (q : Request) : String :=
+  outBytes q.hostname ++ "," ++ outBytes q.domain ++ "," ++ outBytes q.sourceHostname ++ "," ++
+    outBytes q.sourceDomain ++ "," ++ outBool q.thirdParty
+
+def outWeb (cls : VClass) (basic doc : Option NetRule) (opt : CosOpt) (sel : List Bytes × List Bytes)
+    (q : Request) : String :=
   clsLetter cls ++ "|" ++ optText basic ++ "|" ++ toString opt.toNat ++ "|" ++ optText doc ++ "|" ++
-    UF.Ops.B.outSel sel
+    UF.Ops.B.outSel sel ++ "|" ++ outReqFields q
 
 /-- `i3.web ((id ign content)…) <url> <src> <type> <cosHost> psl addrs prefixes`
     model = `engineMatchRequest` (NewRequest → MatchAll twice → NewMatchingResult) + `GetCosmeticOption` +
-    `engineCosmeticResult`; answer `class|basicText|option|documentText|(generic)|(specific)`.
+    `engineCosmeticResult`; answer `class|basicText|option|documentText|(generic)|(specific)|hostname,domain,srcHostname,srcDomain,thirdParty`.
     spec = class: `classWeb` over the matching lines / referrer matching lines (theorem `c06_top`);
     basic / document text: the model's, provided it is one of the matching lines (else `not-a-line`);
     option: `specCosmeticOption` of the modifiers WRITTEN in the basic rule's text (`c16_top`);
-    selectors: `specCosmeticResult` for that option (`c16_top_cosmetic`). -/
+    selectors: `specCosmeticResult` for that option (`c16_top_cosmetic`); request fields: the reference request
+    of C17 (`refRequest`: URL-grammar host, public suffix plus one label, third-party) when the URLs are inside
+    the grammar (`c17_top_web`), the model's otherwise. -/
 def opWeb (args : List W) : String :=
   match args with
   | [ls, url, src, ty, host, psl, addrs, prefixes] =>
@@ -87,7 +94,7 @@ def opWeb (args : List W) : String :=
       let m := engineMatchRequest UF.Ops.driverIO px lists st [] [] url src ty
       let opt := getCosmeticOption m.basicRule
       let model := outWeb (classOf (getBasicResult m)) m.basicRule m.documentRule opt
-        (engineCosmeticResult px lists host opt)
+        (engineCosmeticResult px lists host opt) q
       let ml := matchingLines px lists q
       let sml := sourceMatchingLines px lists q
       let basicOK := match m.basicRule with
@@ -101,7 +108,7 @@ def opWeb (args : List W) : String :=
         | none => specCosmeticOption false []
         | some b => let (wl, mods) := textMods b.text; specCosmeticOption wl mods
       let spec := outWeb (classWeb ml sml) m.basicRule m.documentRule specOpt
-        (specCosmeticResult px lists host specOpt)
+        (specCosmeticResult px lists host specOpt) ((H.refRequest ext url src ty).getD q)
       model ++ " " ++ spec
     | _, _, _, _, _, _, _, _ => "bad-decode"
   | _ => "bad-arity"
